@@ -209,7 +209,8 @@ class QCow2(AlignedStream):
                 result.append(b"\x00" * run_length)
             elif sc_type in UNALLOCATED_SUBCLUSTER_TYPES and self.has_backing_file:
                 self.backing_file.seek(read_offset)
-                result.append(self.backing_file.read(run_length))
+                # The backing file may be shorter than this image, the remainder reads as zeros
+                result.append(self.backing_file.read(run_length).ljust(run_length, b"\x00"))
             elif sc_type == QCow2SubclusterType.QCOW2_SUBCLUSTER_COMPRESSED:
                 result.append(self._read_compressed(run_offset, read_offset, run_length))
             elif sc_type == QCow2SubclusterType.QCOW2_SUBCLUSTER_NORMAL:
